@@ -19,6 +19,8 @@ def run(tier):
     outs = vlib.replay_cases(binary, d, cases)
     vlib.judge_cases(rep, cases, outs, keyf=key_of)
     rep.cov["traces_validated_against_impl"] += len(cases)
+    # (b) impl -> spec: value-level mutations of the accepted records, compared with the specification's answer
+    common.dfuzz(rep, binary, PROP, cases, 3000 if tier != "thorough" else 60000)
     # (c) impl -> spec: content types x ALL 65536 declared lengths x {header only, header + 3 bytes} x 3 parsers, judged by TLC
     import os
     hp = os.path.join(d, "headers.ndjson")
